@@ -250,3 +250,15 @@ PROPS["C11"] = {
 }
 _lv("C11", "handleOutput/handleInfo/ProcessLogBuffer.Write over a scripted stream of <=3 complete lines plus a final fragment with symbolic contents: the in-memory log holds exactly the delivered lines, once, in order, newline stripped, an unterminated last line included; end of stream signalled once.",
     "bufio.ReadString modelled by its contract under symgo (real bufio natively); very long lines and the log-file path (zerolog, files) are outside - reduced scope.")
+
+PROPS["C16"] = {
+    "harnesses": [
+        {"pkg": "loader", "name": "VerifC16_Pipeline", "quick": {}, "thorough": {}, "replay_repeat": 60,
+         "bounds": {"replicas": "{0,1,2,3}", "launch_timeout": "{-1,0,1}", "namespace": "set/unset", "templated field": "one of 8 renderable fields (command, working dir, log location, description, exec probe command, http probe path/host/port)",
+                    "vars": "global only / global + process-local", "map order": "every iteration order in cloneReplicas and renderTemplates of the first run; sorted elsewhere and in the reference run"}},
+    ],
+    "stubs": ["text/template executed natively by the engine on concrete templates and data", "encoding/json Marshal of the process config: snapshot intrinsic"],
+    "assumptions": ["YAML decoding outside; template language limited to the variable references used"],
+}
+_lv("C16", "The post-merge loader pipeline (setDefaultShell, assignDefaultProcessValues, cloneReplicas, copyWorkingDirToProbes, renderTemplates, assignExecutableAndArgs, templater) run twice with independent symbolic map orders on a project with replicas in [0,3], launch timeout, namespace, one of 8 templated fields and global/local vars: defaults, replica names, per-replica rendering of every templated field, Vars[PC_REPLICA_NUM], and equality of the two runs.",
+    "text/template and JSON marshalling are executed natively / as a snapshot intrinsic on concrete data; YAML decoding outside.")
